@@ -25,7 +25,7 @@ SPEC = {
              "(exact canonical form n<=7, else refinement fingerprint) with >=3 atoms and >=1 bond"),
     "assumptions": ["relabelling applied by the harness: same molecule by construction", "molecules <= 120 atoms get shadow calls; larger ones are counted as skipped"],
     "monitors_required": ["c04_shadow_compare", "c04_trace_compare", "c04_exhaustive_class_compare"],
-    "required_obs": {"quick": ["shadow_inputs_with_stale_partition", "shadow_inputs_relabelled_canonical_graph", "cov_multi_component", "cov_isotope_and_radical_on_one_atom", "cov_symmetric_partial_orbit", "cov_text_route_variant", "cov_corpus"]},
+    "required_obs": {"quick": ["cov_foreign_attributes_with_common_names", "shadow_inputs_with_stale_partition", "shadow_inputs_relabelled_canonical_graph", "cov_multi_component", "cov_isotope_and_radical_on_one_atom", "cov_symmetric_partial_orbit", "cov_text_route_variant", "cov_corpus"]},
     "watchdog_s": {"quick": 900, "thorough": 3600},
 }
 PLAN = {
@@ -49,6 +49,8 @@ def _run_case(ctx, case):
     plan = PLAN[ctx.tier]
     rng = random.Random(case["vseed"])
     g0, mol = molprops.build_case_graph(case)
+    if rng.random() < 0.25:
+        molprops.add_foreign_attributes(ctx, g0, rng)
     ctx.evaluations += 1
     ok, r0 = molprops.guarded(ctx, case, c.canonicalize_molecule, g0)
     if not ok:
